@@ -1,6 +1,431 @@
-/- C02 — model not written yet (stub so that the driver target exists). -/
-namespace Nitime.C02
+/-
+C02 — model of `nitime.timeseries.UniformTime.__new__`, `Frequency`, `Frequency.to_period`,
+`TimeSeries.__init__` and the lazy `TimeSeries.time` (core Lean only).
 
-def handle (_args : List String) : String := "bad-op"
+The model follows the source branch by branch and exists in two variants:
+* `.intended` — the property-satisfying behaviour (the code with the repairs proposed in
+  `proposed_fixes/C02-*.diff`): the period of a rate is rounded to the nearest picosecond, the
+  number of samples is the requested length (or, for a duration-only specification, the number of
+  multiples of the interval before the duration, on integers), the reported duration is `n·Δ`,
+  construction from an existing axis keeps its start and reads a rate in Hz.
+* `.current` — the unchanged tree: `to_period` truncates, the sample count is numpy's
+  `arange` length `⌈fl((stop−start)/step)⌉` of a duration computed in binary64, the reported
+  duration is the requested one, `duration == data.duration` is a comparison (→ `TypeError`), a
+  rate given with an existing axis is read as `1.0/rate` in the axis unit, `t0` defaults to 0,
+  and `float(duration)` of a time object is its picosecond payload.
+The full theorems are proved for `.intended`, the counterexamples for `.current`; the
+correspondence compares the implementation with `.intended` and reports `.current` alongside.
+
+Pieces: `checkTspec` (generated validity tables) → `inherit` (existing axis) → `checkUnit`/
+`inferUnit` → `deriveIntervalRate` (`frequency`, `toPeriod`) → `durationPs` → `build`
+(sample count, duration) ; `mkSeries`/`mkSeriesFromTime` resolve the series' own attributes and
+call `mkUniform` exactly like the `time` property does.
+-/
+import Nitime.Model.F64
+import Nitime.Model.Units
+import Nitime.Model.Proto
+import Nitime.Model.C01
+import Nitime.Generated.Units
+import Nitime.Generated.Tspecs
+
+namespace Nitime.C02
+open Nitime
+open Nitime.C01 (Num toPs)
+
+inductive Err where
+  | valueError | typeError | zeroDiv
+  deriving Repr, DecidableEq
+
+inductive Variant where
+  | current | intended
+  deriving Repr, DecidableEq
+
+/-- a time-valued argument: bare python number (read in the axis unit) or a 0-d time object -/
+inductive TArg where
+  | num (v : Num)
+  | tobj (ps : Int) (unit : TimeUnit)
+  deriving Repr, DecidableEq
+
+/-- a rate argument: bare number (Hz) or a `Frequency` object (binary64 Hz) -/
+inductive RArg where
+  | num (v : Num)
+  | freq (hz : Rat)
+  deriving Repr, DecidableEq
+
+/-- the `time_unit` argument: `None`, a key of the conversion table, or anything else -/
+inductive UArg where
+  | none | ok (u : TimeUnit) | bad
+  deriving Repr, DecidableEq
+
+/-- what is observable of a uniform axis: everything in whole picoseconds, the rate as the exact
+value of the stored binary64 -/
+structure Axis where
+  t0 : Int
+  dt : Int
+  n : Nat
+  dur : Int
+  rate : Rat
+  unit : TimeUnit
+  deriving Repr, DecidableEq
+
+structure Spec where
+  data : Option Axis := none
+  length : Option Nat := none
+  duration : Option TArg := none
+  rate : Option RArg := none
+  interval : Option TArg := none
+  t0 : Option TArg := none
+  unit : UArg := .none
+  deriving Repr
+
+/-- sample `i` of an axis; numpy's integer `arange` fills `start + i*step`, the repaired code
+computes `t0 + arange(n)*Δ` -/
+def sampleAt (a : Axis) (i : Nat) : Int := a.t0 + (i : Int) * a.dt
+
+def samples (a : Axis) : List Int := (List.range a.n).map (sampleAt a)
+
+/-! ### argument validation (tables regenerated from the source) -/
+
+def tspecOf (s : Spec) : List Bool :=
+  [s.interval.isSome, s.rate.isSome, s.length.isSome, s.duration.isSome]
+
+def validTspecs (withData : Bool) : List (List Bool) :=
+  (Generated.uniformValid.getD []) ++
+    (if withData then Generated.uniformValidWithData.getD [] else [])
+
+/-- `tspecs_w_data[name]`, names in the order nothing, sampling_interval, sampling_rate, length,
+duration -/
+def wd (i : Nat) : List Bool := (Generated.uniformValidWithData.getD []).getD i []
+
+def checkTspec (s : Spec) : Except Err Unit :=
+  if (validTspecs s.data.isSome).contains (tspecOf s) then .ok () else .error .valueError
+
+/-! ### Frequency -/
+
+def numToF : Num → Rat
+  | .int v => F64.ofInt v
+  | .flt x => x
+
+/-- `float(time_unit_conversion[u])` -/
+def cf (u : TimeUnit) : Rat := F64.ofInt (Generated.factor u : Int)
+
+/-- `Frequency(f, time_unit=u)` for a bare `f`: `f * (float(tuc['s']) / tuc[u])` Hz -/
+def frequency (f : Rat) (u : TimeUnit) : Rat := F64.fmul f (F64.fdiv (cf .s) (cf u))
+
+/-- the binary64 value `(1 / self) * scale_factor` inside `to_period` (base unit) -/
+def periodF (hz : Rat) : Rat := F64.fmul (F64.fdiv 1 hz) (F64.fdiv (cf .s) (cf .ps))
+
+/-- `Frequency.to_period()`: today `np.int64(…)` truncates; intended: nearest picosecond -/
+def toPeriod (v : Variant) (hz : Rat) : Except Err Int :=
+  if hz = 0 then .error .zeroDiv else
+  .ok (match v with
+    | .current => F64.trunc (periodF hz)
+    | .intended => F64.rint (periodF hz))
+
+/-! ### construction from an existing axis -/
+
+/-- the block `if isinstance(data, UniformTime): …` : returns the arguments after inheritance -/
+def inherit (v : Variant) (s : Spec) : Except Err Spec :=
+  match s.data with
+  | none => .ok s
+  | some d =>
+    let tspec := tspecOf s
+    let dDur : TArg := .tobj d.dur d.unit
+    let unit : UArg := match s.unit with | .none => .ok d.unit | u => u
+    let t0 : Option TArg := match v, s.t0 with
+      | .intended, none => some (.tobj d.t0 d.unit)
+      | _, t => t
+    let s := { s with unit := unit, t0 := t0 }
+    if tspec = wd 0 then .ok { s with rate := some (.freq d.rate), duration := some dDur }
+    else if tspec = wd 1 then
+      match v with
+      | .intended => .ok { s with duration := some dDur }
+      | .current => .error .typeError   -- `duration == data.duration` compares `None` with a time object
+    else if tspec = wd 2 then
+      match v with
+      | .intended => .ok { s with duration := some dDur }
+      | .current =>
+        match s.rate with
+        | some (.freq hz) =>
+          match toPeriod v hz with
+          | .ok p => .ok { s with interval := some (.num (.int p)), duration := some dDur }
+          | .error e => .error e
+        | some (.num r) =>
+          if numToF r = 0 then .error .zeroDiv
+          else .ok { s with interval := some (.num (.flt (F64.fdiv 1 (numToF r)))), duration := some dDur }
+        | none => .ok s
+    else if tspec = wd 3 then
+      .ok { s with duration := some (.tobj ((s.length.getD 0 : Nat) * d.dt) d.unit),
+                   rate := some (.freq d.rate) }
+    else if tspec = wd 4 then .ok { s with rate := some (.freq d.rate) }
+    else .ok s
+
+/-! ### unit -/
+
+def checkUnit : UArg → Except Err (Option TimeUnit)
+  | .none => .ok none
+  | .ok u => .ok (some u)
+  | .bad => .error .valueError
+
+/-- unit of a duration time object, else of an interval time object, else seconds -/
+def inferUnit (u : Option TimeUnit) (duration interval : Option TArg) : TimeUnit :=
+  match u with
+  | some u => u
+  | none =>
+    match duration with
+    | some (.tobj _ du) => du
+    | _ => match interval with
+      | some (.tobj _ iu) => iu
+      | _ => .s
+
+/-! ### interval and rate from each other -/
+
+/-- `float(duration)` in the axis unit: a bare number as it is; a time object is its picosecond
+payload (today), divided by the conversion factor (intended) -/
+def durationF (v : Variant) (u : TimeUnit) : TArg → Rat
+  | .num x => numToF x
+  | .tobj ps _ => match v with
+    | .current => F64.ofInt ps
+    | .intended => F64.fdiv (F64.ofInt ps) (cf u)
+
+/-- the block "Calculate the sampling_interval or sampling_rate": returns the interval argument
+(as it is then cast by `TimeArray(sampling_interval, time_unit)`) and the rate in Hz.
+`n` is `length` (axis) or the data length (series). -/
+def deriveIntervalRate (v : Variant) (u : TimeUnit) (n : Option Nat)
+    (interval : Option TArg) (rate : Option RArg) (duration : Option TArg) :
+    Except Err (TArg × Rat) :=
+  match interval with
+  | some (.tobj ps iu) =>
+    let x := F64.fdiv (F64.ofInt ps) (cf iu)
+    if x = 0 then .error .zeroDiv else .ok (.tobj ps iu, frequency (F64.fdiv 1 x) iu)
+  | some (.num x) =>
+    if numToF x = 0 then .error .zeroDiv
+    else .ok (.num x, frequency (F64.fdiv 1 (numToF x)) u)
+  | none =>
+    match rate with
+    | some (.freq hz) =>
+      match toPeriod v hz with
+      | .ok p => .ok (.num (.flt (F64.fdiv (F64.ofInt p) (cf u))), hz)
+      | .error e => .error e
+    | some (.num r) =>
+      let hz := frequency (numToF r) .s
+      match toPeriod v hz with
+      | .ok p => .ok (.num (.flt (F64.fdiv (F64.ofInt p) (cf u))), hz)
+      | .error e => .error e
+    | none =>
+      match duration, n with
+      | some d, some l =>
+        if l = 0 then .error .zeroDiv else
+        let x := F64.fdiv (durationF v u d) (F64.ofInt l)
+        if x = 0 then .error .zeroDiv else .ok (.num (.flt x), frequency (F64.fdiv 1 x) u)
+      | _, _ => .error .typeError
+
+/-- `TimeArray(x, time_unit=u)` of an argument -/
+def targPs (u : TimeUnit) : TArg → Int
+  | .num v => toPs u v
+  | .tobj ps _ => ps
+
+/-- `duration = length * sampling_interval` (python int × python int / float / time object),
+then `TimeArray(duration, time_unit)` -/
+def durationPs (u : TimeUnit) (n : Option Nat) (interval : TArg) : Option TArg → Except Err Int
+  | some d => .ok (targPs u d)
+  | none =>
+    match n with
+    | none => .error .typeError            -- `None * sampling_interval`
+    | some l =>
+      match interval with
+      | .num (.int k) => .ok (toPs u (.int ((l : Int) * k)))
+      | .num (.flt x) => .ok (toPs u (.flt (F64.fmul (F64.ofInt l) x)))
+      | .tobj ps _ => .ok ((l : Int) * ps)
+
+/-! ### the samples -/
+
+/-- start, interval, requested duration in whole picoseconds; rate; unit -/
+structure Resolved where
+  t0 : Int
+  dt : Int
+  durReq : Int
+  rate : Rat
+  unit : TimeUnit
+  deriving Repr, DecidableEq
+
+/-- number of multiples of `dt` (> 0) that lie before `dur`: `⌈dur/dt⌉`, at least 0 -/
+def countBefore (dur dt : Int) : Nat := (-((-dur) / dt)).toNat
+
+/-- length of numpy's `arange(start, start+dur, dt)` for int64 scalars: the ceiling of the
+BINARY64 quotient -/
+def arangeLen (dur dt : Int) : Nat :=
+  (F64.ceil (F64.fdiv (F64.ofInt dur) (F64.ofInt dt))).toNat
+
+def build (v : Variant) (length : Option Nat) (r : Resolved) : Except Err Axis :=
+  if r.dt ≤ 0 then .error .valueError else
+  match v with
+  | .intended =>
+    let n := match length with
+      | some l => l
+      | none => countBefore r.durReq r.dt
+    .ok { t0 := r.t0, dt := r.dt, n := n, dur := (n : Int) * r.dt, rate := r.rate, unit := r.unit }
+  | .current =>
+    .ok { t0 := r.t0, dt := r.dt, n := arangeLen r.durReq r.dt, dur := r.durReq,
+          rate := r.rate, unit := r.unit }
+
+/-- everything before the samples are laid out -/
+def resolve (v : Variant) (s : Spec) : Except Err Resolved := do
+  let s ← inherit v s
+  let uo ← checkUnit s.unit
+  let u := inferUnit uo s.duration s.interval
+  let (iv, hz) ← deriveIntervalRate v u s.length s.interval s.rate s.duration
+  let dur ← durationPs u s.length iv s.duration
+  pure { t0 := targPs u (s.t0.getD (.num (.int 0))), dt := targPs u iv, durReq := dur,
+         rate := hz, unit := u }
+
+/-- `UniformTime(data, length, duration, sampling_rate, sampling_interval, t0, time_unit)` -/
+def mkUniform (v : Variant) (s : Spec) : Except Err Axis := do
+  checkTspec s
+  let r ← resolve v s
+  build v s.length r
+
+/-! ### TimeSeries -/
+
+def seriesTspecOk (interval rate duration : Bool) : Bool :=
+  (Generated.seriesValid.getD []).contains [interval, rate, duration]
+
+/-- the series' own attributes -/
+structure Series where
+  t0 : Int
+  dt : Int
+  rate : Rat
+  unit : TimeUnit
+  time : Axis
+  deriving Repr, DecidableEq
+
+/-- `TimeSeries(data, t0, sampling_interval, sampling_rate, duration, time_unit=u)` followed by a
+read of `.time` (= `UniformTime(length=len, t0=self.t0, sampling_interval=self.sampling_interval,
+time_unit=self.time_unit)`).  `dataLen` = `data.shape[-1]`; `unit` defaults to seconds. -/
+def mkSeries (v : Variant) (dataLen : Nat) (t0 interval : Option TArg) (rate : Option RArg)
+    (duration : Option TArg) (unit : UArg) : Except Err Series := do
+  if !(seriesTspecOk interval.isSome rate.isSome duration.isSome) then throw .valueError
+  let uo ← checkUnit unit
+  let u := inferUnit uo duration interval
+  let (iv, hz) ← deriveIntervalRate v u (some dataLen) interval rate duration
+  let t0ps := targPs u (t0.getD (.num (.int 0)))
+  let dt := targPs u iv
+  let ax ← mkUniform v { length := some dataLen, t0 := some (.tobj t0ps u),
+                         interval := some (.tobj dt u), unit := .ok u }
+  pure { t0 := t0ps, dt := dt, rate := hz, unit := u, time := ax }
+
+/-- `TimeSeries(data, time=axis, t0=…, time_unit=u)` (no rate/interval/duration override) and a
+read of `.time`.  The length check is the code's: lengths differ and the rate is not
+`float(data_len * c_fac) / duration`. -/
+def mkSeriesFromTime (v : Variant) (ax : Axis) (dataLen : Nat) (t0 : Option TArg) (unit : UArg) :
+    Except Err Series := do
+  let uo ← checkUnit unit
+  if ax.n ≠ dataLen ∧
+      ax.rate ≠ F64.fdiv (F64.ofInt ((dataLen : Int) * (Generated.factor ax.unit : Int))) (F64.ofInt ax.dur) then
+    throw .valueError
+  let u := uo.getD ax.unit
+  let t0ps := match t0 with
+    | none => ax.t0
+    | some t => targPs u t
+  let time ← mkUniform v { length := some dataLen, t0 := some (.tobj t0ps u),
+                           interval := some (.tobj ax.dt u), unit := .ok u }
+  pure { t0 := t0ps, dt := ax.dt, rate := ax.rate, unit := u, time := time }
+
+/-! ### line protocol -/
+open Proto
+
+def parseTArg? (s : String) : Option (Option TArg) :=
+  if s = "-" then some none else
+  match s.splitOn ":" with
+  | ["T", u, ps] => do
+    let u ← TimeUnit.ofString? u
+    let ps ← ps.toInt?
+    pure (some (.tobj ps u))
+  | _ => (C01.parseNum? s).map fun n => some (.num n)
+
+def parseRArg? (s : String) : Option (Option RArg) :=
+  if s = "-" then some none else
+  match s.splitOn ":" with
+  | ["F", h] => (parseHex? h).map fun n => some (.freq (F64.ofBits n))
+  | _ => (C01.parseNum? s).map fun n => some (.num n)
+
+def parseUArg? (s : String) : Option UArg :=
+  if s = "none" then some .none else if s = "bad" then some .bad
+  else (TimeUnit.ofString? s).map .ok
+
+def parseLen? (s : String) : Option (Option Nat) :=
+  if s = "-" then some none else s.toNat?.map some
+
+/-- `A:<unit>:<t0>:<dt>:<n>:<dur>:<rate hex>` -/
+def parseAxis? (s : String) : Option (Option Axis) :=
+  if s = "-" then some none else
+  match s.splitOn ":" with
+  | ["A", u, t0, dt, n, dur, r] => do
+    let u ← TimeUnit.ofString? u
+    let t0 ← t0.toInt?
+    let dt ← dt.toInt?
+    let n ← n.toNat?
+    let dur ← dur.toInt?
+    let r ← parseHex? r
+    pure (some { t0 := t0, dt := dt, n := n, dur := dur, rate := F64.ofBits r, unit := u })
+  | _ => none
+
+/-- first, second and last sample (through `samples` for short axes, `sampleAt` for long ones) -/
+def showSamples (a : Axis) : String :=
+  if a.n = 0 then "-" else
+  let get (i : Nat) : Int := if a.n ≤ 4096 then (samples a).getD i 0 else sampleAt a i
+  showIntList [get 0, get (min 1 (a.n - 1)), get (a.n - 1)]
+
+def showAxis (a : Axis) : String :=
+  s!"A:{a.unit.name}:{a.t0}:{a.dt}:{a.n}:{a.dur}:{hex64 (F64.toBits a.rate)}:S:{showSamples a}"
+
+def showErr : Err → String
+  | .valueError => "err ValueError"
+  | .typeError => "err TypeError"
+  | .zeroDiv => "err ZeroDivisionError"
+
+def showExcept {α} (f : α → String) : Except Err α → String
+  | .ok a => "ok " ++ f a
+  | .error e => showErr e
+
+def showSeries (s : Series) : String :=
+  s!"S:{s.unit.name}:{s.t0}:{s.dt}:{hex64 (F64.toBits s.rate)}:{showAxis s.time}"
+
+/-- both variants, `intended | current` -/
+def both (f : Variant → String) : String := f .intended ++ " | " ++ f .current
+
+def handle (args : List String) : String :=
+  match args with
+  | ["uniform", data, len, dur, rate, iv, t0, unit] =>
+    match parseAxis? data, parseLen? len, parseTArg? dur, parseRArg? rate, parseTArg? iv,
+          parseTArg? t0, parseUArg? unit with
+    | some data, some len, some dur, some rate, some iv, some t0, some unit =>
+      let s : Spec := { data := data, length := len, duration := dur, rate := rate,
+                        interval := iv, t0 := t0, unit := unit }
+      both fun v => showExcept showAxis (mkUniform v s)
+    | _, _, _, _, _, _, _ => "bad-op"
+  | ["series", n, t0, iv, rate, dur, unit] =>
+    match n.toNat?, parseTArg? t0, parseTArg? iv, parseRArg? rate, parseTArg? dur, parseUArg? unit with
+    | some n, some t0, some iv, some rate, some dur, some unit =>
+      both fun v => showExcept showSeries (mkSeries v n t0 iv rate dur unit)
+    | _, _, _, _, _, _ => "bad-op"
+  | ["series_from_time", ax, n, t0, unit] =>
+    match parseAxis? ax, n.toNat?, parseTArg? t0, parseUArg? unit with
+    | some (some ax), some n, some t0, some unit =>
+      both fun v => showExcept showSeries (mkSeriesFromTime v ax n t0 unit)
+    | _, _, _, _ => "bad-op"
+  | ["freq", f, unit] =>
+    match C01.parseNum? f, TimeUnit.ofString? unit with
+    | some f, some u => "ok " ++ hex64 (F64.toBits (frequency (numToF f) u))
+    | _, _ => "bad-op"
+  | ["to_period", h] =>
+    match parseHex? h with
+    | some n => both fun v => showExcept toString (toPeriod v (F64.ofBits n))
+    | none => "bad-op"
+  | ["arange_len", dur, dt] =>
+    match dur.toInt?, dt.toInt? with
+    | some dur, some dt => "ok " ++ toString (arangeLen dur dt)
+    | _, _ => "bad-op"
+  | _ => "bad-op"
 
 end Nitime.C02
